@@ -236,10 +236,19 @@ def step (w : World) (line : String) : World × String :=
       | none => ({}, "world err")
       | some g =>
         let nsh := n.toNat!
-        let sh : ShardState := { accts := [], gas := g, active := false }
+        -- a handler that is told an epoch at registration starts from that epoch; otherwise it has heard nothing yet
+        let act0 := match w.regEpoch with | some e => epochConfirmed act.toNat! e | none => false
+        let sh : ShardState := { accts := [], gas := g, active := act0 }
         ({ nshards := nsh, nameChange := nc == "1", activation := act.toNat!,
            dns := if dns == "-" then [] else (dns.splitOn ",").map unhxD,
-           shards := List.replicate nsh sh }, "world ok")
+           shards := List.replicate nsh sh, regEpoch := w.regEpoch }, "world ok")
+    | _ => (w, "badop")
+  else if cmd == "notifier" then
+    match rest with
+    | ["off"] => ({ w with regEpoch := none }, "notifier ok")
+    | [e] => (match e.toNat? with
+        | some n => if n ≤ 4294967295 then ({ w with regEpoch := some n }, "notifier ok") else (w, "badop")
+        | none => (w, "badop"))
     | _ => (w, "badop")
   else if w.nshards == 0 then (w, "noworld")
   else if cmd == "payable" then
@@ -428,6 +437,13 @@ def step (w : World) (line : String) : World × String :=
       match parseToken t with
       | some tok => let b := encToken tok; (w, "ok " ++ hxItem b ++ " " ++ toString b.length)
       | none => (w, "badop")
+    | _ => (w, "badop")
+  else if cmd == "decaddenc" then
+    match rest with
+    | [b, d] =>
+      match decToken (unhxD b) with
+      | some t => (w, "ok " ++ hxItem (encToken { t with value := t.value.map (· + parseInt d) }))
+      | none => (w, "err")
     | _ => (w, "badop")
   else if cmd == "dectoken" then
     match rest with
